@@ -2274,20 +2274,10 @@ def _recursive_fanout(fn: ast.FunctionDef) -> List[List[ast.Call]]:
     return out
 
 
-def rule_render_once_per_child(ctx, rep: Report, rid="Z6", package="gtwrap/interface_parser"):
-    """Work done on a parsed type while parsing stays linear in its nesting depth: a method that recurses structurally
-    (`to_cpp` calling `to_cpp` of the template arguments, ...) calls itself at most once per child in one activation.
-    Two calls on the same children (`all(x.to_cpp() for x in xs)` followed by `", ".join(x.to_cpp() for x in xs)`)
-    double the work per level - 2^depth - and the rule reports it when such a method is reachable from a parse action
-    (a node constructor / from_parse_result, following calls by name, comparisons to `__eq__` / `__ne__`, and
-    str() / format / f-strings to `__repr__` / `__str__`)."""
-    for label, src, want in (("positive", _FANOUT_POSITIVE, True), ("negative", _FANOUT_NEGATIVE, False)):
-        t = ast.parse(src)
-        for p_ in ast.walk(t):
-            for c_ in ast.iter_child_nodes(p_):
-                c_._parent = p_
-        if bool(_recursive_fanout(t.body[0].body[0])) != want:
-            raise AnalysisError(f"{rep.prop}/{rid}: built-in {label} example is not decided as expected")
+def _parse_time_reach(ctx, rep, rid, package):
+    """(methods by name, {qualified method: the method it was reached from}) for the methods of the package's classes that run while
+    parsing: from the constructors / from_parse_result of classes with a `rule`, following calls by name, comparisons to __eq__ /
+    __ne__ and str() / format / f-strings of non-text values to __repr__ / __str__."""
     prog = ctx.prog
     methods: Dict[str, List[Tuple[str, ast.FunctionDef, ModuleInfo]]] = {}
     starts = []
@@ -2324,6 +2314,9 @@ def rule_render_once_per_child(ctx, rep: Report, rid="Z6", package="gtwrap/inter
                     out |= {"__repr__", "__str__"}
             elif isinstance(x, ast.JoinedStr) and not all(plain_text(v.value) for v in x.values if isinstance(v, ast.FormattedValue)):
                 out |= {"__repr__", "__str__"}
+            elif isinstance(x, ast.Attribute) and isinstance(x.ctx, ast.Load) and x.attr in methods and not (isinstance(parent(x), ast.Call) and parent(x).func is x) \
+                    and any(any(unparse(d_) in ("property", "cached_property", "functools.cached_property") for d_ in f2.decorator_list) for _, f2, _ in methods[x.attr]):
+                out.add(x.attr)                   # reading a property runs it
             elif isinstance(x, ast.Compare):
                 sides = [x.left] + list(x.comparators)
                 if any(isinstance(o, (ast.Eq, ast.NotEq, ast.In, ast.NotIn)) for o in x.ops) and not any(plain_text(s_) for s_ in sides):
@@ -2341,6 +2334,24 @@ def rule_render_once_per_child(ctx, rep: Report, rid="Z6", package="gtwrap/inter
                 if q2 not in seen:
                     seen[q2] = q
                     work.append((q2, fn2, mi2))
+    return methods, seen
+
+
+def rule_render_once_per_child(ctx, rep: Report, rid="Z6", package="gtwrap/interface_parser"):
+    """Work done on a parsed type while parsing stays linear in its nesting depth: a method that recurses structurally
+    (`to_cpp` calling `to_cpp` of the template arguments, ...) calls itself at most once per child in one activation.
+    Two calls on the same children (`all(x.to_cpp() for x in xs)` followed by `", ".join(x.to_cpp() for x in xs)`)
+    double the work per level - 2^depth - and the rule reports it when such a method is reachable from a parse action
+    (a node constructor / from_parse_result, following calls by name, comparisons to `__eq__` / `__ne__`, and
+    str() / format / f-strings to `__repr__` / `__str__`)."""
+    for label, src, want in (("positive", _FANOUT_POSITIVE, True), ("negative", _FANOUT_NEGATIVE, False)):
+        t = ast.parse(src)
+        for p_ in ast.walk(t):
+            for c_ in ast.iter_child_nodes(p_):
+                c_._parent = p_
+        if bool(_recursive_fanout(t.body[0].body[0])) != want:
+            raise AnalysisError(f"{rep.prop}/{rid}: built-in {label} example is not decided as expected")
+    methods, seen = _parse_time_reach(ctx, rep, rid, package)
     n = 0
     for mname, lst in sorted(methods.items()):
         for q, fn, mi in sorted(lst, key=lambda x: x[0]):
@@ -3239,9 +3250,11 @@ class Node:
 '''
 
 
-def _cycle_fanout(classes: Dict[str, ast.ClassDef]) -> List[Tuple[str, str, List[int]]]:
+def _cycle_fanout(classes: Dict[str, ast.ClassDef], only_parse_time: bool = False) -> List[Tuple[str, str, List[int]]]:
     """[(function, child source, lines)]: functions of the given classes that lie on a recursion cycle - through method calls,
-    property reads and constructor calls - and enter the cycle two or more times for the same children in one activation."""
+    property reads and constructor calls - and enter the cycle two or more times for the same children in one activation.
+    only_parse_time: restricted to functions reachable from a parse action (the constructor / from_parse_result of a class that
+    has a `rule`), following calls, properties, constructors, str() / format to __repr__ / __str__ and == / in to __eq__."""
     fns: Dict[str, ast.FunctionDef] = {}
     by_name: Dict[str, List[str]] = {}
     props: Dict[str, List[str]] = {}
@@ -3282,9 +3295,33 @@ def _cycle_fanout(classes: Dict[str, ast.ClassDef]) -> List[Tuple[str, str, List
                     seen.add(w)
                     todo.append(w)
         return False
+    parse_time = None
+    if only_parse_time:
+        def extra(fn):
+            out = set()
+            for x in walk_no_nested(fn):
+                if enclosing(x, ast.Raise) is not None:
+                    continue
+                if (isinstance(x, ast.Call) and ((isinstance(x.func, ast.Attribute) and x.func.attr == "format") or
+                                                   (isinstance(x.func, ast.Name) and x.func.id in ("str", "repr")))) or isinstance(x, ast.JoinedStr):
+                    out |= set(by_name.get("__repr__", [])) | set(by_name.get("__str__", []))
+                elif isinstance(x, ast.Compare) and any(isinstance(o, (ast.Eq, ast.NotEq, ast.In, ast.NotIn)) for o in x.ops):
+                    out |= set(by_name.get("__eq__", [])) | set(by_name.get("__ne__", []))
+            return out
+        starts = [f"{cq}.{m}" for cq, cnode in classes.items() for m in ("__init__", "from_parse_result")
+                  if f"{cq}.{m}" in fns and any(isinstance(st, ast.Assign) and any(unparse(t) == "rule" for t in st.targets) for st in cnode.body)]
+        parse_time, todo = set(starts), list(starts)
+        while todo:
+            v = todo.pop()
+            for w in graph.get(v, set()) | extra(fns[v]):
+                if w not in parse_time:
+                    parse_time.add(w)
+                    todo.append(w)
     found = []
     for q, fn in sorted(fns.items()):
         if not reaches(q, q):
+            continue
+        if parse_time is not None and q not in parse_time:
             continue
 
         def key_of(e, node):
@@ -3354,7 +3391,8 @@ def rule_recursion_cycles_once_per_child(ctx, rep: Report, rid="Z9", package="gt
                 rels[q] = mi.rel
     if len(classes) < 15:
         raise AnalysisError(f"{rep.prop}/{rid}: only {len(classes)} parser node classes found")
-    found = _cycle_fanout(classes)
+    _, seen = _parse_time_reach(ctx, rep, rid, package)
+    found = [(q, k, lines) for q, k, lines in _cycle_fanout(classes) if q in seen]
     rep.units["parser_classes_scanned_for_recursion_cycles"] = len(classes)
     for q, k, lines in found:
         cq = q.rsplit(".", 1)[0]
